@@ -151,9 +151,12 @@ PLAN = {
 def stimulus_class(label, run):
     """Code-independent description of the injected stimulus (part of a finding's signature)."""
     out = []
-    for e in run.events:
+    for i, e in enumerate(run.events):
         if e["ev"] == "Cancel":
             out.append(f"cancel/{e['style']}/{'shielded' if e.get('shielded') else 'open'}/{e.get('blocked')}")
+            # did the cancellation interrupt a network write of that caller (its bytes are lost)?
+            dropped = any(x["ev"] == "OpDropped" and x.get("task") == e["r"] and x.get("kind") == "write" for x in run.events[i:])
+            out.append(f"cancel-drop/{e['style']}/{'write' if dropped else 'none'}")
         elif e["ev"] == "Fault":
             out.append(f"fault/{e['kind']}/{e['fault']}")
         elif e["ev"] == "Tick" and e.get("injected"):
